@@ -119,3 +119,11 @@ BUILT['C14'] = (
     "on norms 1e-6..1e6 (result equals the longdouble quotient, no sign change); unittwist family incl. rotational parts at "
     "0, 5 eps, 20 eps, 1e-12; angdiff on scalars and arrays within +-1e3 incl. exact multiples of pi",
     NOTE, "DESIGN.md 4 C14")
+BUILT['C15'] = (
+    "differential monitor at the public boundary of every catalogued callable: the same call in every container form, "
+    "element type, wrong length, packed/separate form, unit and misspelt option; reflection guard keeps the catalogue honest",
+    "120+ catalogue entries (every name of spatialmath.base.__all__ that takes a vector/angle/unit/order + class constructors, "
+    "named constructors, accessors) are each called with list/tuple/1-D/row/column vectors of int and float elements (results "
+    "bit-identical to the 1-D float form), with every wrong length 0..8 (must raise, never None), in scalar-triple vs packed "
+    "form, with unit='deg' vs 'rad' (1e-12) for inputs and returned angles, and with misspelt order and unit names (must raise)",
+    NOTE, "DESIGN.md 4 C15 + Appendix B")
